@@ -191,6 +191,13 @@ def check_require(sb, p, lp, res, form='paren'):
     open(main, 'wb').write(require_call(p, form))
     args = ['build', out, '--lua', main]
     allowed = [sb.proj]
+    art = None
+    if (len(p) + len(lp) + len(form)) % 3 == 0:
+        # another section comes from a cart in a directory outside every root: naming that cart permits opening IT, not
+        # looking packages up next to it
+        art = os.path.join(sb.abs, 'art.p8')
+        open(art, 'wb').write(b'pico-8 cartridge // http://www.pico-8.com\nversion 33\n__lua__\nart=1\n__gfx__\n' + b'1' * 128 + b'\n')
+        args += ['--music', art]
     env_old = os.environ.pop('PICO8_LUA_PATH', None)
     if lp == 'init':
         args += ['--lua-path', '?;?.lua;?/init.lua']
@@ -224,7 +231,7 @@ def check_require(sb, p, lp, res, form='paren'):
         else:
             os.environ['HOME'] = home_old
     for rp, mode in tr.log:
-        if rp in (os.path.realpath(main), os.path.realpath(out)):
+        if rp in (os.path.realpath(main), os.path.realpath(out)) or (art and rp == os.path.realpath(art)):
             continue
         if not any(under(rp, a) for a in allowed):
             res.violation('C12|require|opened-outside|%s|loadpath=%s%s' % (location_class(sb, rp), lp, '' if form == 'paren' else '|form=' + form),
